@@ -260,12 +260,50 @@ class DirectedNetworkSpec(NetworkSpec):
     directed = True
 
 
+def _two_components():
+    """7 nodes: a 4-cycle with a chord, a separate edge, and an isolated node - path lengths
+    contain infinities, which the measures with temporary in-place edits have to restore"""
+    A = np.zeros((7, 7), dtype=np.int8)
+    for i, j in [(0, 1), (1, 2), (2, 3), (3, 0), (0, 2), (4, 5)]:
+        A[i, j] = A[j, i] = 1
+    return A, np.array([1.5, 1.7, 1.9, 2.1, 2.3, 2.5, 0.7])
+
+
+class DisconnectedNetworkSpec(NetworkSpec):
+    name = "Network/disconnected"
+    N = 7
+
+    def setup_more(self):
+        #  mutators keep the graph disconnected half of the time
+        rng = self.rng
+        self.A_pool = [_sym(rng, 7, 0.25 + 0.1 * i) for i in range(4)]
+
+    def start(self):
+        A, w = _two_components()
+        inputs = self.ready(adjacency=A, node_weights=w)
+        obj = self.cls()(adjacency=A, directed=False, node_weights=w, silence_level=SL)
+        return Run(self, obj, inputs, {"A": A.copy(), "w": w.copy(), "la_w": None})
+
+
 class InteractingSpec(NetworkSpec):
     name = "InteractingNetworks/undirected"
 
     def cls(self):
         from pyunicorn.core import InteractingNetworks
         return InteractingNetworks
+
+
+class InteractingDisconnectedSpec(DisconnectedNetworkSpec):
+    name = "InteractingNetworks/disconnected"
+
+    def cls(self):
+        from pyunicorn.core import InteractingNetworks
+        return InteractingNetworks
+
+    def ctx(self, run):
+        c = Spec.ctx(self, run)
+        c.update(nl1=[0, 2, 4], nl2=[1, 3, 5, 6])
+        return c
 
 
 class InteractingDirectedSpec(InteractingSpec):
@@ -1310,7 +1348,8 @@ class EventSeriesSpec(Spec):
 
 
 ALL_SPECS = [
-    NetworkSpec, DirectedNetworkSpec, InteractingSpec, InteractingDirectedSpec, SpatialSpec, GeoSpec,
+    NetworkSpec, DirectedNetworkSpec, DisconnectedNetworkSpec, InteractingSpec, InteractingDisconnectedSpec,
+    InteractingDirectedSpec, SpatialSpec, GeoSpec,
     ResSpec, VisibilitySpec,
     ClimateSpec, TsonisSpec, SpearmanSpec, PartialSpec, MutualInfoSpec, HavlinSpec, HilbertSpec,
     RainfallSpec, CoupledTsonisSpec, ESClimateSpec,
@@ -1321,9 +1360,15 @@ ALL_SPECS = [
 
 
 def specs_for(tier, seed):
+    """specs of a tier; the environment variable VERIF_SPECS (comma separated spec names or
+    prefixes) restricts the list - a development aid, never set by the driver"""
+    import os
+    only = [x for x in os.environ.get("VERIF_SPECS", "").split(",") if x]
     out = []
     for c in ALL_SPECS:
         if c.tier == "thorough" and tier != "thorough":
+            continue
+        if only and not any(c.name == o or c.name.startswith(o) for o in only):
             continue
         out.append(c(seed))
     return out
